@@ -55,6 +55,9 @@ def generate(rng, focus, tier="quick"):
         long_only = False
     fee = {"kind": "zero"} if rng.random() < 0.35 else {"kind": "pct", "c": rng.choice([0.0, 1e-4, 1e-3, 0.01, 0.05]),
                                                       "t": rng.choice([0.0, 0.0, 5e-3])}
+    if rng.random() < 0.15:
+        fee = rng.choice([{"kind": "subzero", "c": rng.choice([1e-3, 0.01, 0.05])},
+                          {"kind": "subpct", "c": rng.choice([0.0, 1e-3]), "t": 0.5, "t2": rng.choice([0.0, 5e-3, 0.02])}])
     uk = rng.choice(["static", "static", "dynamic", "scripted"])
     start = timegen.start_instant(rng)
     cfg = {
@@ -89,6 +92,7 @@ def generate(rng, focus, tier="quick"):
         if rng.random() < 0.4:
             cfg["entry_tz"] = dict((a, rng.choice(["US/Eastern", "Asia/Tokyo", "UTC"])) for a in assets)
         cfg["absent_as_nat"] = rng.random() < 0.4
+        cfg["py_datetime"] = rng.random() < 0.3
     ops = []
     now = start
     last = dict((a, cfg["quotes0"][a][0]) for a in assets)
@@ -247,7 +251,11 @@ def _run(plan, ctx):
     for a, (b, k) in sorted(cfg["quotes0"].items()):
         qb.set(a, b, k)
     fee = cfg["fee"]
-    fm = ZeroFeeModel() if fee["kind"] == "zero" else PercentFeeModel(commission_pct=fee["c"], tax_pct=fee["t"])
+    if fee["kind"] in ("subzero", "subpct"):
+        from .broker import make_sub_fee
+        fm = make_sub_fee(fee)
+    else:
+        fm = ZeroFeeModel() if fee["kind"] == "zero" else PercentFeeModel(commission_pct=fee["c"], tax_pct=fee["t"])
     t0 = ts(cfg["start"])
     ex = SimulatedExchange(t0)
     broker = SimulatedBroker(t0, ex, qb, account_id="rebal", initial_funds=cfg["initial_cash"], fee_model=fm)
@@ -261,8 +269,12 @@ def _run(plan, ctx):
         tzs = cfg.get("entry_tz") or {}
         import pandas as _pd
         absent = _pd.NaT if cfg.get("absent_as_nat") else None
-        uni = DynamicUniverse(dict((a, ((ts(e).tz_convert(tzs[a]) if tzs.get(a) else ts(e)) if e is not None else absent))
-                                   for a, e in cfg["entries"].items()))
+        def _entry(a, e):
+            if e is None:
+                return absent
+            t_ = ts(e).tz_convert(tzs[a]) if tzs.get(a) else ts(e)
+            return t_.to_pydatetime() if (cfg.get("py_datetime") and e > -2000000000) else t_
+        uni = DynamicUniverse(dict((a, _entry(a, e)) for a, e in cfg["entries"].items()))
     else:
         uni = scripted = _Universe()
     alpha = _Alpha()
